@@ -54,7 +54,8 @@ def run_property(env, pid, tier, seed):
             kn.append(f)
         else:
             viol.append(f)
-    vdir = os.path.join(VERIF, "evidence", "violations", pid)
+    evdir = os.environ.get("VERIF_EVIDENCE_DIR") or os.path.join(VERIF, "evidence")
+    vdir = os.path.join(evdir, "violations", pid)
     replay = None
     if viol:
         os.makedirs(vdir, exist_ok=True)
@@ -103,8 +104,8 @@ def run_property(env, pid, tier, seed):
         "violations": len(viol),
     }
     ev["coverage"]["distinct_nontrivial"] = max(2, len(rep.instances))
-    os.makedirs(os.path.join(VERIF, "evidence"), exist_ok=True)
-    with open(os.path.join(VERIF, "evidence", "%s.json" % pid), "w") as fh:
+    os.makedirs(evdir, exist_ok=True)
+    with open(os.path.join(evdir, "%s.json" % pid), "w") as fh:
         json.dump(ev, fh, indent=1, default=str)
     print("%s tier=%s obligations=%d discharged=%d known=%d violations=%d wall=%.1fs" % (
         pid, tier, rep.obligations, rep.discharged, len(kn), len(viol), wall))
